@@ -323,6 +323,12 @@ impl HookDb {
             }
             tokio::task::yield_now().await;
         }
+        let mut c = self.ctl.lock().unwrap();
+        if c.log_enabled {
+            c.seq += 1;
+            let seq = c.seq;
+            c.log.push(OpRec { seq, pid, kind: "complete", detail: String::new(), failed: false });
+        }
     }
 }
 
